@@ -116,11 +116,14 @@ Init == /\ blog = << Rec(0, StartSize, 0) >>      \* CreateEmptyFsBinlog: LevSta
 -------------------------------------------------------------------------------
 (* binlog_engine.go: apply() -- one payload of complete events starting at e.dbOffset.
    chunk: the records of the payload (their .end are absolute offsets).               *)
+RECURSIVE DropBytes(_, _)
+DropBytes(chunk, k) == IF k <= 0 \/ chunk = <<>> THEN chunk ELSE DropBytes(Tail(chunk), k - chunk[1].sz)
+
 ApplyRes(txv, dbo, chunk) ==
   LET len == SumSz(chunk)
       ahead == IF txv.off > dbo THEN txv.off - dbo ELSE 0          \* dbOffset (stored) > offset
-      skipLen == Min(ahead, len)
-      rest == SelectSeq(chunk, LAMBDA r : r.end > dbo + skipLen)   \* payload[shouldSkipLen:]
+      skipLen == Min(ahead, len)                                   \* shouldSkipLen
+      rest == DropBytes(chunk, skipLen)                            \* payload[shouldSkipLen:]
   IN IF ahead > 0 /\ skipLen = len
        THEN [tx |-> txv, dbo |-> dbo]                               \* oddity: no progress reported
        ELSE [tx |-> [app |-> txv.app \o IdsOf(rest), off |-> dbo + len], dbo |-> dbo + len]
@@ -348,10 +351,13 @@ ReadApplyCore(n, elapsed) ==
                /\ queue' = Append(queue, [body |-> chunk, skip |-> 0])           \* addNewBody
                /\ qOff' = (IF rst = "none" THEN dbOffset ELSE qOff) + SumSz(chunk)
                /\ UNCHANGED <<tx, dbOffset>>
+               /\ rpos' = rpos + n
           ELSE LET r == ApplyRes(tx, dbOffset, chunk)
                IN /\ tx' = r.tx /\ dbOffset' = r.dbo
                   /\ UNCHANGED <<rst, queue, qOff>>
-  /\ rpos' = rpos + n
+                  \* no progress reported (whole payload below the stored offset): fsbinlog
+                  \* gives up ("didnt read any bytes nor return any error")
+                  /\ rpos' = IF r.dbo = dbOffset THEN rpos ELSE rpos + n
   /\ UNCHANGED <<blog, written, synced, cinfo, dbC, up, lock, waitQ, rcommit, cl, acked, failedW, seen,
                  readRet, nreads, crashes, closes, durable>>
 
@@ -379,6 +385,14 @@ ReadCommitCore ==
   /\ CommitCore(EndOff(blog, rpos))
   /\ UNCHANGED <<blog, written, up, lock, qOff, rpos, failedW, seen, nreads, crashes, closes, durable>>
 
+\* S->I only: a binlog other than fsbinlog may report a commit below the position it has
+\* delivered (Commit's early return and its "offset >= e.dbOffset" test)
+ReadCommitLowCore(k) ==
+  /\ AllowDesync /\ Reading
+  /\ k >= 1 /\ k < rpos
+  /\ CommitCore(EndOff(blog, k))
+  /\ UNCHANGED <<blog, written, synced, up, lock, qOff, rpos, rcommit, failedW, seen, nreads, crashes, closes, durable>>
+
 \* end of the re-read of a master: final makeCommit, WriteLoop's Commit(ri.Offset),
 \* ChangeRole(ready), binlogWaitReady drains what is still queued; txLoop starts
 ReplayDoneCore ==
@@ -395,6 +409,9 @@ ReplayDoneCore ==
 DesyncCore(k) ==
   /\ AllowDesync /\ Reading /\ rst = "none" /\ queue = <<>>
   /\ k >= 1 /\ k < rpos /\ rcommit = rpos
+  /\ cinfo >= EndOff(blog, rpos)          \* nothing is queued while the engine is behind its database
+  \* only events are re-delivered: skip() does not consult the stored offset (apply() does)
+  /\ \A i \in (k + 1)..rpos : blog[i].id # 0
   /\ rpos' = k /\ rcommit' = k
   /\ dbOffset' = EndOff(blog, k)
   /\ UNCHANGED <<blog, written, synced, cinfo, dbC, tx, up, lock, waitQ, rst, queue, qOff, cl, acked, failedW,
@@ -469,6 +486,7 @@ ReadApply(n, el) == ReadApplyCore(n, el)
                                        szs |-> [i \in 1..n |-> blog[rpos + i].sz], elapsed |-> el, post |-> Post])
 ReadSkip == ReadSkipCore /\ hist' = Record([a |-> "Skip", n |-> blog[rpos + 1].sz, post |-> Post])
 ReadCommit == rcommit # rpos /\ ReadCommitCore /\ hist' = Record([a |-> "Commit", off |-> EndOff(blog, rpos), post |-> Post])
+ReadCommitLow(k) == ReadCommitLowCore(k) /\ hist' = Record([a |-> "Commit", off |-> EndOff(blog, k), post |-> Post])
 ReplayDone == ReplayDoneCore /\ hist' = Record([a |-> "ReplayDone"])
 Desync(k) == DesyncCore(k) /\ hist' = Record([a |-> "Desync", off |-> EndOff(blog, k), post |-> Post])
 Crash == CrashCore /\ hist' = Record([a |-> "Crash"])
@@ -485,7 +503,7 @@ Next == /\ (MaxOps > 0 => Len(hist) < MaxOps)
            \/ TxCommit \/ BlWrite \/ BlSync \/ BlCommit
            \/ \E n \in 1..Cardinality(Writes), el \in BOOLEAN : ReadApply(n, el)
            \/ ReadSkip \/ ReadCommit \/ ReplayDone
-           \/ \E k \in 1..Len(blog) : Desync(k)
+           \/ \E k \in 1..Len(blog) : Desync(k) \/ ReadCommitLow(k)
            \/ Crash \/ Restart \/ Close
 
 Spec == Init /\ [][Next]_vars
@@ -545,4 +563,5 @@ Monotone == [][ /\ dbC'.off >= dbC.off
                 /\ (up = "up" /\ up' = "up" => cinfo' >= cinfo) ]_vars
 
 Export == PrintT(<<"BEH", ToJson(hist')>>)
+ExportEnd == IF Len(hist') >= MaxOps THEN PrintT(<<"BEH", ToJson(hist')>>) ELSE TRUE
 ===============================================================================
